@@ -24,7 +24,7 @@ def scenarios(rep, tier, seed):
     for i in range(nf):
         lattice = i % 3 == 0
         met = "log_squared_euclidean" if i % 4 == 0 else rng.choice(metrics)
-        scn = S.random_float_scenario(rng, metric=met, n=rng.randrange(3, 7) if lattice else rng.randrange(3, 15), nq=3, lattice=lattice, positive=met in S.POSITIVE_METRICS, classes=2 if i % 2 else None)
+        scn = S.random_float_scenario(rng, metric=met, n=rng.randrange(2, 7) if lattice else rng.randrange(2, 15), nq=3, lattice=lattice, positive=met in S.POSITIVE_METRICS, classes=2 if i % 2 else None)
         if not S.materialise_pre(scn):
             rep.skip("non_finite_precomputed_matrix")
             continue
